@@ -197,6 +197,7 @@ type resetSpec struct {
 	entrySet   map[string]string // set by every entry point before use
 	scratch    map[string]string
 	beforeRead map[string]string // reasoned: written before read
+	gated      map[string]string // written before read, and the state-gating proof must succeed
 	freshInFn  map[string]string // every read dominated by a write in the same function
 }
 
@@ -208,6 +209,8 @@ func runC08(p *Prog, r *Result) {
 	}
 	r.Rule("R08a", "every Parser/Printer field is reset, configuration, entry-set, scratch, or written before read (exception table, mechanically checked where possible)", 60)
 	r.Rule("R08b", "reset() dominates every other receiver write in the entry points; other exported methods reach the lexer only through them", 10)
+	r.Rule("R08f", "InteractiveSeq yields every statement it accumulated on every path to the iterator's end (stopped consumer, recorded error and empty accumulator aside)", 1)
+	checkInteractiveHandsOver(p, r, pkg, "R08f")
 	r.Rule("R08c", "sibling agreement Parse / StmtsSeq: same sequence reset, rune, next, statements, doHeredocs under err == nil", 2)
 	r.Rule("R08e", "every newLit() is followed on every path by endLit(), a discard or an error report, so Incomplete() cannot stay true after a completed statement (shared with C10 R10c)", 15)
 	r.Rule("R08d", "every increment of openNodes/openBquotes/openBquoteDbls is followed by its decrement on every path to the exit", 4)
@@ -243,15 +246,16 @@ func resetSpecs() (resetSpec, resetSpec) {
 		beforeRead: map[string]string{
 			"spaced":        "next() clears it before producing each token",
 			"pos":           "next() sets it for every token before the parser reads it",
-			"rxOpenParens":  "set to 0 by the =~ arm of testExprBinary before the regexp lexer state that reads it",
-			"rxFirstPart":   "set by the =~ arm of testExprBinary before the regexp lexer state that reads it",
 			"lastBquoteEsc": "rune() stores it on the backquote that makes the parser read it",
 		},
+	}
+	parser.gated = map[string]string{
+		"rxOpenParens": "only read in the regexp lexer state; every switch into that state is preceded by `= 0`",
+		"rxFirstPart":  "only read in the regexp lexer state; every switch into that state is preceded by `= true`",
 	}
 	printer := resetSpec{
 		typeName: "Printer", optType: "PrinterOption", ctor: "NewPrinter",
 		entries:    []string{"Print"},
-		beforeRead: map[string]string{"wroteSemi": "stmt() clears it at the start of every statement before any reader"},
 		freshInFn:  map[string]string{"tabsPrinter": "flushHeredocs assigns a fresh nested Printer before every use"},
 	}
 	return parser, printer
@@ -457,9 +461,60 @@ func checkResetSpec(p *Prog, r *Result, pkg *packages.Package, spec resetSpec) {
 			r.Except(key, "fresh-in-function: "+why)
 			continue
 		}
+		if why, ok := spec.gated[fv.Name()]; ok {
+			ok2, how := stateGatedProof(p, pkg, "syntax", st, fv, resetFD)
+			if how == "" {
+				how = why
+			}
+			r.Check(ok2, "R08a", key, fv.Pos(), "written before read (proved by state gating): "+how,
+				"the field is not reset; it used to be proved that it is only read in one lexer state and that every switch into that state first assigns it a fresh value, and that proof no longer goes through: a value left by an earlier use (an input that ended inside that state) can be read")
+			continue
+		}
 		if why, ok := spec.beforeRead[fv.Name()]; ok {
-			// mechanical part: it is written somewhere outside reset and option code
-			r.Check(len(ws) > 0, "R08a", key, fv.Pos(), "written before read (reasoned): "+why, "listed as written-before-read but never written")
+			// Mechanical part 1: the interprocedural must-write-before-read analysis (wbr.go) proves it outright when no
+			// path from an entry point reads the field first. It cannot see value correlations such as "the parser only
+			// reads pos for tokens for which next() stored it", so when it fails the entry stays a reasoned exception —
+			// with mechanical part 2: the field is assigned a value that does not depend on its old one somewhere outside
+			// reset() and the options. A field that is only ever incremented, decremented or or-ed carries what the
+			// previous use left in it.
+			if witness := readFirstWitness(p, pkg, "syntax", spec.typeName, spec.entries, fv); witness == "" {
+				r.OK("R08a", key, fv.Pos(), "written before read on every path from every entry point (proved): "+why)
+				continue
+			}
+			if ok, how := stateGatedProof(p, pkg, "syntax", st, fv, resetFD); ok {
+				r.OK("R08a", key, fv.Pos(), "written before read (proved by state gating): "+how)
+				continue
+			}
+			plain := 0
+			for _, fd := range p.AllFuncDecls("syntax") {
+				if fd == resetFD {
+					continue
+				}
+				ast.Inspect(fd.Body, func(n ast.Node) bool {
+					as, ok := n.(*ast.AssignStmt)
+					if !ok || as.Tok != token.ASSIGN || len(as.Lhs) != len(as.Rhs) {
+						return true
+					}
+					for i, l := range as.Lhs {
+						if selectorField(info, l) != fv {
+							continue
+						}
+						selfRef := false
+						ast.Inspect(as.Rhs[i], func(m ast.Node) bool {
+							if se, ok := m.(*ast.SelectorExpr); ok && selectorField(info, se) == fv {
+								selfRef = true
+							}
+							return true
+						})
+						if !selfRef {
+							plain++
+						}
+					}
+					return true
+				})
+			}
+			r.Check(plain > 0, "R08a", key, fv.Pos(), fmt.Sprintf("written before read (reasoned; %d assignments of a fresh value outside reset): %s", plain, why),
+				"the field is not reset and is never assigned a value that does not depend on its old one (only incremented, decremented or updated in place): what an earlier use — one that ended in an error, say — left in it is the starting value of the next use")
 			r.Except(key, "written-before-read: "+why)
 			continue
 		}
@@ -716,6 +771,12 @@ func checkCounters(p *Prog, r *Result, pkg *packages.Package) {
 }
 
 var c08Controls = []Control{
+	{Name: "interactive-drops-last-line", Rule: "R08f", WantKey: "accumulated statements are yielded", File: "syntax/parser.go",
+		Mutate: ctlReplaceAnywhere("\t\tif !w.stopped && p.err == nil && len(w.accumulated) > 0 {\n\t\t\tyield(w.accumulated, nil)\n\t\t}\n", "")},
+	{Name: "regexp-paren-count-set-after-state-switch", Rule: "R08a", WantKey: "Parser.rxOpenParens", File: "syntax/parser.go",
+		Mutate: ctlReplaceAnywhere("\t\tp.rxOpenParens = 0\n\t\tp.rxFirstPart = true\n", "\t\tp.rxFirstPart = true\n")},
+	{Name: "printer-semicolon-flag-not-reset", Rule: "R08a", WantKey: "Printer.wroteSemi", File: "syntax/printer.go",
+		Mutate: ctlReplaceAnywhere("\tp.nestedBinary = false\n\tp.wroteSemi = false\n", "\tp.nestedBinary = false\n")},
 	{Name: "reset-forgets-litBs", Rule: "R08a", WantKey: "Parser.litBs", File: "syntax/parser.go",
 		Mutate: ctlReplace("Parser.reset", "p.litBs = nil", "", 0)},
 	{Name: "reset-forgets-buriedHdocs", Rule: "R08a", WantKey: "Parser.buriedHdocs", File: "syntax/parser.go",
